@@ -608,6 +608,32 @@ impl IndexTable {
 	}
 }
 
+/// Verification hook: exposes the two private page-search functions on synthetic pages.
+#[cfg(parity_db_verif)]
+pub mod verif_hooks {
+	use super::*;
+
+	/// Returns `((entry, slot) of the vectorised search, (entry, slot) of the scalar search)`.
+	/// On targets without the vectorised path both are the scalar search.
+	pub fn find_entry_both(
+		index_bits: u8,
+		key_prefix: u64,
+		sub_index: usize,
+		chunk: &[u8; CHUNK_LEN],
+	) -> ((u64, usize), (u64, usize)) {
+		let table = IndexTable::create_new(std::path::Path::new(""), TableId::new(0, index_bits));
+		let chunk = Chunk(*chunk);
+		#[cfg(target_arch = "x86_64")]
+		let fast = table.find_entry_sse2(key_prefix, sub_index, &chunk);
+		#[cfg(not(target_arch = "x86_64"))]
+		let fast = table.find_entry_base(key_prefix, sub_index, &chunk);
+		let dispatched = table.find_entry(key_prefix, sub_index, &chunk);
+		assert!(dispatched.0 == fast.0 && dispatched.1 == fast.1);
+		let base = table.find_entry_base(key_prefix, sub_index, &chunk);
+		((fast.0.as_u64(), fast.1), (base.0.as_u64(), base.1))
+	}
+}
+
 #[cfg(test)]
 mod test {
 	use super::*;
